@@ -39,7 +39,13 @@ RULE = ("random fonts (line / quadratic contours incl. contours starting off-cur
         "HISTORY of 1-3 earlier not-in-place compiles on the SAME font object before the observed compileTTF: of an empty layer (2/7), of a sparse layer, of the default layer with the "
         "same / with other options (reversal flipped, flatten), compileOTF, a bare TTFPreProcessor run; line/quadratic fonts with component graphs and mixed glyphs (5/6) or cubic "
         "fonts (1/6); the source handed to the predicate is the authored data, never re-read from the font object; non-trivial = a key or a history is present and the options call "
-        "for a reversal or a re-anchoring (or a cubic conversion).")
+        "for a reversal or a re-anchoring (or a cubic conversion).  "
+        "Glyph-lib flags (n/8 more fonts, tag `glyphlib`): line/quadratic fonts with component graphs and mixed glyphs whose glyphs carry public.truetype.overlap "
+        "(explicit False 45% (search 60%) / True 30% / absent; at least one outline glyph with False in 4 of 5 fonts) and whose components carry identifiers with "
+        "public.objectLibs entries (roundOffsetToGrid / useMyMetrics, either value, or none) x {convertCubics, reverseDirection, flattenComponents}: the keys only "
+        "steer glyf FLAG bits written after the outlines are built (OVERLAP_SIMPLE shares the first point's flag byte with the on-curve bit), so every point with "
+        "its on/off flag, every component record and maxp are compared with the model (which never sees a lib) and judged by the same predicates; non-trivial = an "
+        "outline glyph carries the key with the value False.")
 ASSUMED = ["cu2qu (curve_to_quadratic) is external: its error bound is measured on the pre-processor's un-rounded output, not proved",
            "glyf binary encoding/decoding and maxp.recalc are fontTools'",
            "dropImpliedOnCurves: fontTools' dropImpliedOnCurvePoints / _is_mid_point are modelled from their source (fontTools 4.55) and tied through the "
@@ -49,7 +55,10 @@ ASSUMED = ["cu2qu (curve_to_quadratic) is external: its error bound is measured 
            "optional); cubic masters (fonts_to_quadratic) with the option are not tied; of the variable font the default master's glyf entry, the gvar tuples' point counts and the "
            "instances at the masters' own locations are observed (gvar deltas in between the masters are varLib's interpolation, C10/C13)",
            "state stream: the model is of inplace=False compiles - it has no lib-key or object-history input at all (that IS the claim: neither may matter); the in-place "
-           "mode (inplace=True, where CubicToQuadraticFilter honours and writes the curve-type key and the source is modified on purpose) is not generated and not modelled"]
+           "mode (inplace=True, where CubicToQuadraticFilter honours and writes the curve-type key and the source is modified on purpose) is not generated and not modelled",
+           "glyph-lib stream: InstructionCompiler._set_simple_flags / _set_composite_flags (glyf flag post-processing) are not modelled - the model has no lib input; "
+           "that they leave the on-curve bits, coordinates and component records alone is observed on the compiled font, not proved; the flag bits themselves "
+           "(OVERLAP_SIMPLE / OVERLAP_COMPOUND / ROUND_XY_TO_GRID / USE_MY_METRICS) are not part of C02's statement and are not checked; glyf-v1 (allQuadratic=False, cubic bit) is not generated"]
 
 def _gen_base(rng, n, mode):
     for i in range(n):
@@ -241,12 +250,52 @@ def _gen_hist(rng, n, mode):
                "allQuadratic": True, "libkey": libkey, "hist": hist}
 
 
+OVERLAP_KEY = "public.truetype.overlap"
+OBJECT_LIBS_KEY = "public.objectLibs"
+ROUND_KEY = "public.truetype.roundOffsetToGrid"
+METRICS_KEY = "public.truetype.useMyMetrics"
+
+
+def _gen_glyphlib(rng, n, mode):
+    """per-glyph / per-component TrueType lib keys that the instruction compiler turns into glyf FLAG bits after the outlines
+    are built (InstructionCompiler._set_simple_flags / _set_composite_flags: OVERLAP_SIMPLE lives in the first POINT's flag
+    byte next to the on-curve bit, OVERLAP_COMPOUND / ROUND_XY_TO_GRID / USE_MY_METRICS in the component records): whatever
+    their values - also an explicit False, which writers rarely emit - the outline and the references must be what they are
+    without the keys.  The keys are not part of the model's input (fd_glyphs_json drops every lib)."""
+    mats = ["id", "id", "mirrorx", "mirrory", "rot90", "rot180", "swap", "half", "shear"]
+    for i in range(n):
+        flatten = rng.random() < 0.25
+        fd = outline_font(rng, nglyphs=rng.choice([1, 2, 3, 5]), kinds=("line", "line", "qcurve"), grid=8, half=0.3,
+                          mats=mats[:8] if flatten else mats, maxdepth=3, pcomp=0.45, mixed=0.3, offstart=(i % 3 == 0),
+                          open_=0.0, offgrid=8)
+        pf = 0.6 if mode == "search" else 0.45
+        clib = {}
+        for g in fd["glyphs"]:
+            r = rng.random()
+            if r < pf:
+                g["lib"] = {OVERLAP_KEY: False}
+            elif r < pf + 0.3:
+                g["lib"] = {OVERLAP_KEY: True}
+            if g["components"] and rng.random() < 0.6:
+                # None = no identifier; {} = identifier without keys; else the two component keys with either value
+                clib[g["name"]] = [rng.choice([None, {}, {ROUND_KEY: False}, {ROUND_KEY: True}, {METRICS_KEY: True}, {METRICS_KEY: False},
+                                               {ROUND_KEY: False, METRICS_KEY: True}]) for _ in g["components"]]
+        if not any(g["contours"] and g.get("lib", {}).get(OVERLAP_KEY) is False for g in fd["glyphs"]) and rng.random() < 0.8:
+            cands = [g for g in fd["glyphs"] if g["contours"]]
+            if cands:
+                rng.choice(cands)["lib"] = {OVERLAP_KEY: False}
+        yield {"fd": fd, "skip": [], "cubic": False, "err": None, "convertCubics": rng.random() < 0.7,
+               "reverseDirection": rng.random() < 0.75, "flatten": flatten, "lib": rng.choice(["ufoLib2", "defcon"]),
+               "allQuadratic": True, "glyphlib": True, "clib": clib}
+
+
 def gen(rng, n, mode):
     yield from _gen_base(rng, n, mode)
     # the same generator state as before for the streams above; the new streams come after them
     yield from _gen_drop(rng, max(8, n // 3), mode)
     yield from _gen_joint(rng, max(4, n // 12), mode)
     yield from _gen_hist(rng, max(12, n // 4), mode)
+    yield from _gen_glyphlib(rng, max(10, n // 8), mode)
 
 
 def _bez3(p0, p1, p2, p3, t):
@@ -433,6 +482,19 @@ def run(case):
     if case.get("libkey"):
         where, val = case["libkey"]
         (font.lib if where == "font" else font.layers.defaultLayer.lib)[CURVE_TYPE_KEY] = val
+    for gname, recs in (case.get("clib") or {}).items():
+        # component identifiers + public.objectLibs entries (the only way a UFO carries per-component flags)
+        if gname not in font:
+            continue
+        olibs = {}
+        for k, (comp, rec) in enumerate(zip(font[gname].components, recs)):
+            if rec is None:
+                continue
+            comp.identifier = "c%d" % k
+            if rec:
+                olibs["c%d" % k] = dict(rec)
+        if olibs:
+            font[gname].lib[OBJECT_LIBS_KEY] = olibs
     for op in case.get("hist") or []:
         # earlier compiles on the same object, all with the default inplace=False; what they return is not looked at
         try:
@@ -514,6 +576,14 @@ def run(case):
     tags = ["cubic" if case["cubic"] else "linequad", "cc:%s" % case["convertCubics"], "rev:%s" % case["reverseDirection"],
             "flat:%s" % case["flatten"], case["lib"], "err:" + str(obs.get("err"))] + (["mixed"] if mixed else []) + (["skip"] if case.get("skip") else []) + \
         (["det<0"] if neg else []) + (["offstart"] if off else []) + ((["drop", "dropped" if dropped else "nodrop"]) if case.get("drop") else [])
+    if case.get("glyphlib"):
+        vals = {g["name"]: g.get("lib", {}).get(OVERLAP_KEY) for g in fd["glyphs"]}
+        fsimple = any(g["contours"] and vals[g["name"]] is False for g in fd["glyphs"])
+        tags += ["glyphlib"] + (["ovl-false-outline"] if fsimple else []) + \
+            (["ovl-true-outline"] if any(g["contours"] and vals[g["name"]] is True for g in fd["glyphs"]) else []) + \
+            (["ovl-composite"] if any(not g["contours"] and g["components"] and vals[g["name"]] is not None for g in fd["glyphs"]) else []) + \
+            (["complib"] if case.get("clib") else [])
+        return [{"op": "font", "in": inp, "obs": obs, "tags": tags, "nontrivial": fsimple and obs.get("err") is None}]
     ishist = "hist" in case
     if ishist:
         tags += ["state", "libkey:%s" % ("-".join(case["libkey"]) if case.get("libkey") else None)] + \
@@ -640,4 +710,7 @@ LEVEL_NOTE = ("Trusted: Lean kernel + standard axioms; correspondence harness; g
               "observed font against the AUTHORED source and the model output (independent of key and history) must agree; no new theorem: that a not-in-place compile reads no "
               "curve-type key and leaves the source object untouched (BaseFilter.__call__'s `glyphSet is None` test, `copy=not inplace`, `rememberCurveType and self.inplace`) is "
               "tested, not proved.  Seeded changes that make an empty glyph set fall back to the font's own layer (filters then run in place; the next compile reverses twice) "
-              "or that honour the key when not in place (reversal skipped) fail with a failing input on every seed tried.")
+              "or that honour the key when not in place (reversal skipped) fail with a failing input on every seed tried.  "
+              "Glyph-lib stream (public.truetype.overlap on glyphs, objectLibs flags on components): predicate-only observation of the same kind - holdsSimple / holdsComposite "
+              "evaluated by the Lean driver on the observed glyf data against the authored source, model (lib-independent) must agree; no new theorem, the instruction "
+              "compiler's flag post-processing is outside the model.  A seeded change that clears the first point's on-curve bit when the key is False fails with a failing input on seeds 0..4.")
